@@ -52,6 +52,8 @@ func (r *addrsRecord) flush(write ds.Write) (err error) {
 	key := addrBookBase.ChildString(b32.RawStdEncoding.EncodeToString(r.Id))
 
 	if len(r.Addrs) == 0 {
+		// the signed peer record is only kept while the peer has addresses.
+		r.CertifiedRecord = nil
 		if err = write.Delete(context.TODO(), key); err == nil {
 			r.dirty = false
 		}
@@ -97,6 +99,7 @@ func (r *addrsRecord) clean(now time.Time) (chgd bool) {
 	if addrsLen == 0 {
 		// this is a ghost record; let's signal it has to be written.
 		// flush() will take care of doing the deletion.
+		r.CertifiedRecord = nil
 		return true
 	}
 
@@ -107,6 +110,11 @@ func (r *addrsRecord) clean(now time.Time) (chgd bool) {
 	}
 
 	r.Addrs = removeExpired(r.Addrs, nowUnix)
+	if len(r.Addrs) == 0 {
+		// all addresses are gone; the signed peer record goes with them, so
+		// that it is not returned again if unrelated addresses are added later.
+		r.CertifiedRecord = nil
+	}
 
 	return r.dirty || len(r.Addrs) != addrsLen
 }
